@@ -378,6 +378,9 @@ var Schemas = []Schema{
 	{"stmt-plus-call-above-minus-call", func(g *G) *Change {
 		return &Change{Kind: "stmts", Lines: lines(" tgtBefore()", "+replCall(‹1:args›)", "-tgtCall(‹1:args›)")}
 	}},
+	{"stmt-plus-block-above-minus-block", func(g *G) *Change {
+		return &Change{Kind: "stmts", Lines: lines("+if tgtOk {", "+  ‹1:stmts›", "+}", "-if !tgtBad {", "-  ‹1:stmts›", "-}")}
+	}},
 	{"stmt-plus-call-above-minus-call-leading", func(g *G) *Change {
 		return &Change{Kind: "stmts", Meta: mv("x", "expression"), Lines: lines("+replCall(«x», ‹1:args›)", "-tgtCall(«x», ‹1:args›)", " tgtAfter()")}
 	}},
